@@ -35,6 +35,7 @@ MC_THOROUGH = [('MC_nest.cfg', 1500), ('MC_tiny.cfg', 900)]
 
 PROPS = {
     'C01': {
+        'samples': (300, 3000),
         'repotests': True,
         'mc_quick': ['MC_quick.cfg'], 'mc_thorough': MC_THOROUGH,
         'title': 'Cache transparency',
@@ -86,6 +87,7 @@ PROPS = {
                 'non-trivial = at least 10 judged answers in the trace',
     },
     'C05': {
+        'samples': (300, 3000),
         'repotests': True,
         'mc_quick': ['MC_quick.cfg'], 'mc_thorough': MC_THOROUGH,
         'title': 'Cache effectiveness',
@@ -244,6 +246,7 @@ PROPS = {
                 'calls; non-trivial = a setup failure or at least three executed calls',
     },
     'C12': {
+        'samples': (300, 3000),
         'repotests': True,
         'mc_quick': ['MC_quick_clean.cfg'], 'mc_thorough': [('MC_tiny.cfg', 900)],
         'title': 'clean',
